@@ -327,7 +327,12 @@ func TestVerifC18EventListBehaviour(t *testing.T) {
 					}
 					// reference: the original list object; witnesses older than first-1 cannot use the list
 					// at all ("update too new"): then both must fail
-					evsO, _ := func() (*revocation.EventList, error) { f := form; form = "original"; defer func() { form = f }(); return mkList() }()
+					evsO, _ := func() (*revocation.EventList, error) {
+						f := form
+						form = "original"
+						defer func() { form = f }()
+						return mkList()
+					}()
 					want, werr := apply(evsO)
 					r.Outcome(fmt.Sprintf("%s:applicable=%v:same as original=%v", form, werr == nil, (gerr == nil) == (werr == nil) && got == want))
 					if (gerr == nil) != (werr == nil) || got != want {
